@@ -163,13 +163,14 @@ Qed.
 
 (** ---- updateBest, literal eligibility (no guard needed) ---- *)
 
-Theorem update_best_literal st cs prev :
-  is_choice st (fun c => usable_go (max_seqno cs) c = true) cs prev (update_best st cs prev).
+(** the code, for whatever the two loops of updateBest read *)
+Theorem update_best2_literal st cs1 cs2 prev :
+  is_choice st (fun c => usable_go (max_seqno cs1) c = true) cs2 prev (update_best2 st cs1 cs2 prev).
 Proof.
-  unfold is_choice, update_best. destruct st.
+  unfold is_choice, update_best2. destruct st.
   - (* best ping *)
-    destruct cs as [|c0 t]; [left; split; [intros c []|reflexivity]|].
-    set (cs := c0 :: t). set (m := max_seqno cs).
+    destruct cs2 as [|c0 t]; [left; split; [intros c []|reflexivity]|].
+    set (cs := c0 :: t). set (m := max_seqno cs1).
     pose proof (fbp_spec m cs 0 None) as Hs.
     destruct (find_best_ping m cs 0 None) as [[j r]|].
     + destruct Hs as [[Hacc _]|(k & c & -> & Hn & Hu & -> & _ & Hmin)]; [discriminate|].
@@ -178,15 +179,19 @@ Proof.
     + destruct Hs as [_ Hall]. left. split; [|reflexivity].
       intros c Hin Hu. rewrite (Hall _ Hin) in Hu. discriminate.
   - (* first working *)
-    destruct cs as [|c0 t]; [left; split; [intros c []|reflexivity]|].
-    set (cs := c0 :: t). set (m := max_seqno cs).
+    destruct cs2 as [|c0 t]; [left; split; [intros c []|reflexivity]|].
+    set (cs := c0 :: t). set (m := max_seqno cs1).
     destruct (find_first_working m cs 0) as [j|] eqn:Hf.
     + destruct (ffw_some _ _ _ _ Hf) as (k & c & -> & Hn & Hu & Hmin).
       right. exists k, c. cbn [Nat.add]. repeat apply conj; [reflexivity|exact Hn|exact Hu|exact Hmin].
     + left. split; [|reflexivity]. intros c Hin Hu.
       rewrite (ffw_none _ _ _ Hf c Hin) in Hu. discriminate.
-  - destruct cs; reflexivity.
+  - destruct cs2; reflexivity.
 Qed.
+
+Theorem update_best_literal st cs prev :
+  is_choice st (fun c => usable_go (max_seqno cs) c = true) cs prev (update_best st cs prev).
+Proof. exact (update_best2_literal st cs cs prev). Qed.
 
 Lemma is_choice_ext st (P Q : conn -> Prop) cs prev res :
   (forall c, In c cs -> (P c <-> Q c)) ->
@@ -208,6 +213,44 @@ Proof.
   apply (is_choice_ext st (fun c => usable_go (max_seqno cs) c = true)).
   - intros c _. apply usable_iff_eligible.
   - apply update_best_literal.
+Qed.
+
+(** heads that rise while updateBest runs: the chosen connection is alive and at most one
+    block behind the newest head the first loop saw — in particular a connection whose head
+    has just risen ABOVE that maximum stays a candidate — with the property's tie-breaking *)
+Theorem update_best2_spec st cs1 cs2 prev :
+  is_choice st (fun c => c_alive c = true /\ (newest cs1 - seq32 c <= 1)%N) cs2 prev
+            (update_best2 st cs1 cs2 prev).
+Proof.
+  apply (is_choice_ext st (fun c => usable_go (max_seqno cs1) c = true)).
+  - intros c _. rewrite max_seqno_newest. unfold usable_go. rewrite andb_true_iff, current_go_spec. tauto.
+  - apply update_best2_literal.
+Qed.
+
+(** a connection that was a candidate for the heads of the first loop is still one after
+    its head has risen (the uint32 difference maxSeqno - seqno would wrap here) *)
+Lemma risen_head_stays_current cs1 c1 c2 :
+  (newest cs1 - seq32 c1 <= 1)%N -> (seq32 c1 <= seq32 c2)%N -> (newest cs1 - seq32 c2 <= 1)%N.
+Proof. lia. Qed.
+
+(** so whenever some connection is alive at the second read and was current at the first,
+    the refresh does not keep the previous choice: it picks such a connection *)
+Corollary update_best2_picks_current st cs1 cs2 prev i c1 c2 :
+  st <> OtherStrategy -> heads_rose cs1 cs2 ->
+  nth_error cs1 i = Some c1 -> nth_error cs2 i = Some c2 ->
+  (newest cs1 - seq32 c1 <= 1)%N -> c_alive c2 = true ->
+  exists j d, update_best2 st cs1 cs2 prev = Some j /\ nth_error cs2 j = Some d /\
+              c_alive d = true /\ (newest cs1 - seq32 d <= 1)%N.
+Proof.
+  intros Hst Hrose H1 H2 Hcur Hal.
+  assert (Hle : (seq32 c1 <= seq32 c2)%N).
+  { clear - Hrose H1 H2. revert i H1 H2. induction Hrose as [|x y l1 l2 Hxy _ IH]; intros [|i] H1 H2; cbn in *; try discriminate.
+    - injection H1 as <-. injection H2 as <-. exact Hxy.
+    - eapply IH; eassumption. }
+  pose proof (update_best2_spec st cs1 cs2 prev) as Hc. unfold is_choice in Hc.
+  destruct st; [| |contradiction].
+  all: destruct Hc as [[Hnone _]|(j & d & Hres & Hn & [Hd1 Hd2] & _)];
+    [exfalso; apply (Hnone c2 (nth_error_In _ _ H2)); split; [exact Hal|lia]|exists j, d; auto].
 Qed.
 
 (** read out: "whenever at least one connection is eligible, the chosen one is eligible" *)
@@ -236,6 +279,15 @@ Lemma update_best_range st cs prev i :
   update_best st cs prev = Some i -> prev = Some i \/ i < length cs.
 Proof.
   intros Hu. pose proof (update_best_literal st cs prev) as Hc. rewrite Hu in Hc.
+  unfold is_choice in Hc. destruct st; [| |left; congruence].
+  all: destruct Hc as [[_ Hp]|(j & c & Hj & Hn & _)]; [left; congruence|right].
+  all: injection Hj as <-; apply nth_error_Some; congruence.
+Qed.
+
+Lemma update_best2_range st cs1 cs2 prev i :
+  update_best2 st cs1 cs2 prev = Some i -> prev = Some i \/ i < length cs2.
+Proof.
+  intros Hu. pose proof (update_best2_literal st cs1 cs2 prev) as Hc. rewrite Hu in Hc.
   unfold is_choice in Hc. destruct st; [| |left; congruence].
   all: destruct Hc as [[_ Hp]|(j & c & Hj & Hn & _)]; [left; congruence|right].
   all: injection Hj as <-; apply nth_error_Some; congruence.
